@@ -1129,6 +1129,15 @@ fn emit_serde_family(ctx: &mut Ctx, g: &mut Gen, rounds: usize) {
         let mut m = BTreeMap::new();
         m.insert(u, u);
         ser_lines(ctx, "BTreeMap<u64,u64>", &m, "boundary");
+        // the key alone is at the boundary (the value always fits)
+        let mut mk = BTreeMap::new();
+        mk.insert(u, true);
+        mk.insert(1u64, false);
+        ser_lines(ctx, "BTreeMap<u64,bool>", &mk, "boundary");
+        let mut mi = BTreeMap::new();
+        mi.insert(u as i64, "v".to_string());
+        mi.insert(-1i64, "m".to_string());
+        ser_lines(ctx, "BTreeMap<i64,String>", &mi, "boundary");
     }
     for &i in INTS {
         ser_lines(ctx, "i64", &i, "boundary");
